@@ -28,7 +28,7 @@ ASSUMPTIONS = [
 ]
 
 OPS = ["same", "other", "touch", "adv0.4", "adv1", "adv2.5", "plain", "etag", "lm", "both", "list-first", "list-mid", "list-last", "weak",
-       "weaklist", "star", "etag0", "lm0", "both0", "other-keepm", "list-empty", "list-comma", "etag-range", "lm-range", "list-long", "truncate0", "back2.5"]
+       "weaklist", "star", "etag0", "lm0", "both0", "other-keepm", "list-empty", "list-comma", "etag-range", "lm-range", "list-long", "truncate0", "back2.5", "star-lm"]
 MODS = ("same", "other", "touch", "other-keepm", "truncate0")
 
 
@@ -126,6 +126,9 @@ def run_history(ctx, vfs, iface, app, url_path, file_path, seq, start_frac, zone
                 j = resp[0] if op.endswith("0") else resp[-1]
             base = op.rstrip("0")
             hd = {"plain": [], "star": [("If-None-Match", "*")]}.get(base)
+            if base == "star-lm":
+                # '*' together with a date held from an earlier answer: the entity-tag condition decides (RFC 9110 13.1.3), '*' matches what exists
+                hd, base = [("If-None-Match", "*" if step % 2 else " * "), ("If-Modified-Since", j["lm"])], "star"
             if hd is None:
                 hd = {
                     "etag": [("If-None-Match", j["etag"])],
@@ -133,7 +136,7 @@ def run_history(ctx, vfs, iface, app, url_path, file_path, seq, start_frac, zone
                     "both": [("If-None-Match", j["etag"]), ("If-Modified-Since", j["lm"])],
                     "list-first": [("If-None-Match", f'{j["etag"]}, "zzz"' if step % 2 else f'{j["etag"]} , "zzz"')],  # (a blank may also stand before the comma)
                     "list-mid": [("If-None-Match", f'"zzz", {j["etag"]}, "yyy"')],
-                    "list-last": [("If-None-Match", f'"zzz",{j["etag"]}')],
+                    "list-last": [("If-None-Match", f'"zzz",{j["etag"]}' if step % 2 else f'"zzz",\t{j["etag"]}')],  # (no blank, or a TAB, after the comma)
                     "list-empty": [("If-None-Match", f', {j["etag"]},' if step % 2 else f'"a", , {j["etag"]}')],  # empty list members are legal (RFC 7230 7)
                     "list-long": [("If-None-Match", ", ".join(['"%040x"' % (k * 7919) for k in range(8)] + [j["etag"]] + ['W/"%040x"' % k for k in range(3)]))],  # a dozen tags, ~500 characters
                     "list-comma": [("If-None-Match", f'"foo,bar", {j["etag"]}')],  # a comma inside an entity-tag is legal (RFC 7232 2.3)
@@ -309,6 +312,7 @@ def run(ctx):
                 tag_sweep(ctx, vfs, t, range(0, 140) if ctx.quick else range(0, 1200), (0, 1, 81, 3600, 86400, 172800.5, 864000))
                 tag_sweep(ctx, vfs, t, (121, 202, 133, 512, 1000, 1001, 65536), range(0, 200))
                 # file times around New Year (week-based and calendar years differ there), a leap day, the epoch's first days
+                tag_sweep(ctx, vfs, t, (7, 0), (0, 0.5, 1), base=0.0)  # file times of exactly 0 (archives unpacked with zeroed time stamps), and just after
                 for base in (1735516800.0, 1609286400.0, 1451520000.0, 1709164800.0, 86400.0 * 3):
                     tag_sweep(ctx, vfs, t, (7,), (0, 3600, 86400, 2 * 86400, 3 * 86400, 4 * 86400, 40 * 86400), base=base)
                 ctx.case(("tag-sweep", t[0]))
